@@ -195,6 +195,9 @@ namespace chaiscript {
         return true;
       }
 
+      // a file shorter than a byte order mark makes the read above fail; a failed stream ignores seekg
+      // and every later read, so recover before rewinding
+      infile.clear();
       infile.seekg(0);
 
       return false;
